@@ -114,9 +114,21 @@ def _own_break_or_continue(body) -> bool:
 def unroll(fnode: ast.FunctionDef, max_rows: int = 24) -> ast.FunctionDef:
     """copy of the function with its literal-table loops written out"""
     fnode = copy.deepcopy(fnode)
+    _unroll(fnode, max_rows)
+    return fnode
+
+
+def unroll_in_place(fnode: ast.FunctionDef, max_rows: int = 24, extra_tables=None) -> bool:
+    return _unroll(fnode, max_rows, extra_tables)
+
+
+def _unroll(fnode: ast.FunctionDef, max_rows: int = 24, extra_tables=None) -> bool:
     single = _single_assignments(fnode)
     locals_ = {n.id for n in ast.walk(fnode) if isinstance(n, ast.Name) and isinstance(n.ctx, ast.Store)} | \
         {a.arg for a in ast.walk(fnode) if isinstance(a, ast.arg)}
+    for k_, v_ in (extra_tables or {}).items():
+        if k_ not in locals_:
+            single.setdefault(k_, v_)
     changed = [False]
 
     def block(stmts: List[ast.stmt]) -> List[ast.stmt]:
@@ -161,4 +173,4 @@ def unroll(fnode: ast.FunctionDef, max_rows: int = 24) -> ast.FunctionDef:
         return out
     fnode.body = block(fnode.body)
     ast.fix_missing_locations(fnode)
-    return fnode
+    return changed[0]
